@@ -1,5 +1,6 @@
 import Jp.Lemmas.Valid
 import Jp.Lemmas.C12
+import Jp.Lemmas.Bounds
 /-
   C12 — Splitting and range-slicing return the right sub-list as a borrowed view.
   Model: the eight `PointerIndex::get` loops of `src/pointer/slice.rs` (state idx/offset/start/end),
@@ -17,6 +18,7 @@ def spanOf (p : Bytes) (r : Option (Nat × Nat)) : Res Unit (Option Span) :=
 -- getRange_spec getRangeFrom_spec getRangeTo_spec getRangeIncl_spec getRangeToIncl_spec getRangeFull_spec
 -- getBounds_spec span_is_sublist no_panic splitAt_iff splitAt_concat splitFront_spec splitBack_spec
 -- parent_spec splitFrontV_view splitBackV_view take_drop_join excluded_max_none
+-- loop_accumulators_bounded
 
 theorem getRange_spec (p : Bytes) (a b : Nat) (h : validPtr p = true) :
     getRange p a b = spanOf p (rangeSpec (count p) a b) := by
@@ -293,6 +295,34 @@ theorem take_drop_join (p : Bytes) (k : Nat) (h : validPtr p = true) (hk : k ≤
   have _ := hk
   rw [← ofToks_append, List.take_append_drop]
   exact ofToks_tokens p (validPtr_shape h)
+
+/-- no `usize` overflow in the five range loops: started as the `get` impls start them (`idx = 0`,
+    `offset = 0`, no start offset yet) on the tokens of a valid pointer, for every pair of range ends
+    `a`, `b`, the final `idx` is at most the number of tokens, and the final `offset` and every recorded
+    start/end offset is at most the length of the text — itself at least the number of tokens.
+    (`idx` and `offset` only grow during a loop, so all their intermediate values are bounded too;
+    the per-iteration invariant is `Bounds.acc_step`.) -/
+theorem loop_accumulators_bounded (p : Bytes) (a b : Nat) (h : validPtr p = true) :
+    count p ≤ p.length ∧
+    -- `a..b`: final `(idx, offset, start_offset, end_offset)`
+    (match rangeLoop a b (tokens p) 0 0 none with
+      | (idx, offset, so, eo) =>
+        idx ≤ count p ∧ offset ≤ p.length ∧
+        (∀ o, so = some o → o ≤ p.length) ∧ (∀ o, eo = some o → o ≤ p.length)) ∧
+    -- `a..`: `start_offset`
+    (∀ o, rangeFromLoop a (tokens p) 0 0 = some o → o ≤ p.length) ∧
+    -- `..b`: final `(idx, offset, end_offset)`
+    (match rangeToLoop b (tokens p) 0 0 with
+      | (idx, offset, eo) =>
+        idx ≤ count p ∧ offset ≤ p.length ∧ (∀ o, eo = some o → o ≤ p.length)) ∧
+    -- `a..=b`: `(start_offset, end_offset)`
+    (match rangeInclLoop a b (tokens p) 0 0 none with
+      | (so, eo) => (∀ o, so = some o → o ≤ p.length) ∧ (∀ o, eo = some o → o ≤ p.length)) ∧
+    -- `..=b`: `end_offset`
+    (∀ o, rangeToInclLoop b (tokens p) 0 0 = some o → o ≤ p.length) :=
+  ⟨Bounds.count_le_length p h, Bounds.rangeLoop_bounded p a b h, Bounds.rangeFromLoop_bounded p a h,
+    Bounds.rangeToLoop_bounded p b h, Bounds.rangeInclLoop_bounded p a b h,
+    Bounds.rangeToInclLoop_bounded p b h⟩
 
 example : getBounds [47, 97, 47, 98] (.excluded usizeMax) .unbounded = .ok none := by decide
 example : getRange [] 0 0 = .ok none ∧ getRangeTo [] 0 = .ok (some (0, 0)) := by decide
